@@ -2921,6 +2921,20 @@ impl Interpreter {
         &mut self,
         gen_state: &Rc<RefCell<BytecodeGeneratorState>>,
     ) -> Result<Guarded, JsError> {
+        // The environment guards form one stack shared with the caller.  Whatever the
+        // generator body leaves on it when control comes back (function environment,
+        // block scopes open at a yield) is dropped here: those environments stay
+        // reachable from the generator state.
+        let guard_base = self.env_guards.len();
+        let result = self.resume_bytecode_generator_inner(gen_state);
+        self.env_guards.truncate(guard_base);
+        result
+    }
+
+    fn resume_bytecode_generator_inner(
+        &mut self,
+        gen_state: &Rc<RefCell<BytecodeGeneratorState>>,
+    ) -> Result<Guarded, JsError> {
         use bytecode_vm::{BytecodeVM, VmResult};
 
         // Check if generator is already completed
@@ -2943,6 +2957,8 @@ impl Interpreter {
             saved_registers,
             saved_call_stack,
             saved_try_stack,
+            saved_env_stack,
+            saved_pending_completion,
             chunk,
             yield_result_register,
             closure,
@@ -2959,6 +2975,8 @@ impl Interpreter {
                 state.saved_registers.clone(),
                 state.saved_call_stack.clone(),
                 state.saved_try_stack.clone(),
+                state.saved_env_stack.clone(),
+                state.saved_pending_completion.clone(),
                 state.chunk.clone(),
                 state.yield_result_register,
                 state.closure.clone(),
@@ -2994,6 +3012,14 @@ impl Interpreter {
             gen_state.borrow_mut().func_env = Some(new_env.cheap_clone());
             (new_env, Some(guard))
         };
+
+        // Leaving a block scope pops one environment guard: provide one for every block
+        // scope that was open at the yield point, so that the caller's guards stay untouched
+        for _ in 0..saved_env_stack.len() {
+            let guard = self.heap.create_guard();
+            guard.guard(gen_env.cheap_clone());
+            self.push_env_guard(guard);
+        }
 
         // Set the generator's environment as the current environment
         self.env = gen_env;
@@ -3050,6 +3076,8 @@ impl Interpreter {
                         state.saved_registers = yield_result.state.registers;
                         state.saved_call_stack = yield_result.state.frames;
                         state.saved_try_stack = yield_result.state.try_stack;
+                        state.saved_env_stack = yield_result.state.saved_env_stack;
+                        state.saved_pending_completion = yield_result.state.pending_completion;
                         state.yield_result_register = Some(yield_result.resume_register);
                         // Save current environment (may include block scopes)
                         state.current_env = Some(self.env.cheap_clone());
@@ -3070,6 +3098,8 @@ impl Interpreter {
                         state.saved_registers = yield_star_result.state.registers;
                         state.saved_call_stack = yield_star_result.state.frames;
                         state.saved_try_stack = yield_star_result.state.try_stack;
+                        state.saved_env_stack = yield_star_result.state.saved_env_stack;
+                        state.saved_pending_completion = yield_star_result.state.pending_completion;
                         state.yield_result_register = Some(yield_star_result.resume_register);
                         // Save current environment (may include block scopes)
                         state.current_env = Some(self.env.cheap_clone());
@@ -3125,8 +3155,8 @@ impl Interpreter {
                 new_target: JsValue::Undefined,
                 trampoline_stack: Vec::new(), // Generators run at top level
                 this_value: None,             // supplied by the caller below
-                saved_env_stack: Vec::new(),
-                pending_completion: None,
+                saved_env_stack,
+                pending_completion: saved_pending_completion,
             };
 
             // Create guard for the VM registers
@@ -3168,6 +3198,8 @@ impl Interpreter {
                         state.saved_registers = yield_result.state.registers;
                         state.saved_call_stack = yield_result.state.frames;
                         state.saved_try_stack = yield_result.state.try_stack;
+                        state.saved_env_stack = yield_result.state.saved_env_stack;
+                        state.saved_pending_completion = yield_result.state.pending_completion;
                         state.yield_result_register = Some(yield_result.resume_register);
                         // Save current environment (may include block scopes)
                         state.current_env = Some(self.env.cheap_clone());
@@ -3187,6 +3219,8 @@ impl Interpreter {
                         state.saved_registers = yield_star_result.state.registers;
                         state.saved_call_stack = yield_star_result.state.frames;
                         state.saved_try_stack = yield_star_result.state.try_stack;
+                        state.saved_env_stack = yield_star_result.state.saved_env_stack;
+                        state.saved_pending_completion = yield_star_result.state.pending_completion;
                         state.yield_result_register = Some(yield_star_result.resume_register);
                         // Save current environment (may include block scopes)
                         state.current_env = Some(self.env.cheap_clone());
@@ -4286,6 +4320,8 @@ impl Interpreter {
             saved_registers: Vec::new(),
             saved_call_stack: Vec::new(),
             saved_try_stack: Vec::new(),
+            saved_env_stack: Vec::new(),
+            saved_pending_completion: None,
             yield_result_register: None,
             func_env: None,           // Will be created on first call to next()
             current_env: None,        // Will be saved at each yield point
@@ -4329,6 +4365,8 @@ impl Interpreter {
             saved_registers: Vec::new(),
             saved_call_stack: Vec::new(),
             saved_try_stack: Vec::new(),
+            saved_env_stack: Vec::new(),
+            saved_pending_completion: None,
             yield_result_register: None,
             func_env: None,           // Will be created on first call to next()
             current_env: None,        // Will be saved at each yield point
